@@ -395,6 +395,9 @@ theorem document_in_namespace (d : LDef) (x : XmlNode) (h : toXml d = .ok x) :
   | none => simp [hd, throw, throwThe, MonadExceptOf.throw] at h
   | some date =>
     simp only [hd] at h
+    by_cases hde : date.isEmpty = true
+    · simp [hde, throw, throwThe, MonadExceptOf.throw] at h
+    simp only [hde, Bool.false_eq_true, if_false] at h
     cases ht : d.ptypes.mapM (fun kv => writeParameterType u kv.2) with
     | error e => simp [ht] at h
     | ok ts =>
